@@ -48,7 +48,7 @@ def mandatory_bins(tier):
     b = ["len_mod16_%d" % i for i in range(16)] + ["trailing_zeros_%d" % z for z in range(18)]
     b += ["all_zero_content", "via_set_config", "via_direct_construction", "framing_bf3", "framing_bec2", "needle_scan", "needle_session_key", "needle_security_code",
           "needle_customer_key", "needle_plaintext_block", "key_ends_00", "default_key", "cipher_unregistered", "cipher_fails_at_call", "cipher_fails_at_first_call",
-          "cipher_fails_at_last_call", "fault_stream", "fault_path", "read_back_with_key", "long_content", "content_longer_than_1024", "rewrite_after_content_change", "rewrite_after_in_place_content_change", "set_config_over_preexisting_plain_configuration", "target_is_a_file_name", "read_back_without_mac_check", "rewrite_of_a_read_back_object", "rewrite_under_another_key", "marked_for_encryption_after_construction", "unusable_key_given_explicitly", "several_encrypted_components", "encrypted_component_not_last", "flag_set_with_other_enc_tag", "encryption_flag_passed_positionally", "content_given_as_bytearray", "files_written_and_read_by_concurrent_threads", "concurrent_threads_under_the_same_session_key"]
+          "cipher_fails_at_last_call", "fault_stream", "fault_path", "read_back_with_key", "long_content", "content_longer_than_1024", "rewrite_after_content_change", "rewrite_after_in_place_content_change", "set_config_over_preexisting_plain_configuration", "target_is_a_file_name", "read_back_without_mac_check", "rewrite_of_a_read_back_object", "rewrite_under_another_key", "marked_for_encryption_after_construction", "unusable_key_given_explicitly", "several_encrypted_components", "encrypted_component_not_last", "flag_set_with_other_enc_tag", "encryption_flag_passed_positionally", "content_given_as_bytearray", "files_written_and_read_by_concurrent_threads", "concurrent_threads_under_the_same_session_key", "plain_and_encrypted_components_with_identical_content"]
     return b
 
 
@@ -336,9 +336,18 @@ def check_multi(ns, ctx, rng, key, framing, specs):
     BF, B = ns.bf3file, ns.bec2file
     layout = rng.choice(("EPE", "EEP", "PEEP", "EP", "EEE", "PEPE"))
     comps = []
+    same_content = rng.random() < 0.3
+    if same_content:
+        # components whose contents are byte-identical (one image stored in the clear for one use and encrypted for another, or
+        # the same secret in two slots): each is stored by its own mark
+        ctx.bin("plain_and_encrypted_components_with_identical_content")
+        shared_ln = rng.choice((1, 15, 16, 17, 32, 40, 100))
+        shared_blob = rng.randbytes(shared_ln)
     for ch in layout:
         ln = rng.choice((1, 15, 16, 17, 32, 40, 100))
         blob = rng.randbytes(ln)
+        if same_content:
+            ln, blob = shared_ln, shared_blob
         if ch == "E":
             comps.append(MComp([(0xC3, b"\x02"), (0xC2, b"\x02"), (1, bytes((len(comps),)))], blob, ln, True))
         else:
